@@ -203,6 +203,13 @@ func c06(c *Ctx) {
 					if v, isC := ev.Args[1].Int64(); isC && v == closeMsg && d.Kind == core.KCall && d.Ref == interface{}(fcm) {
 						if cv, isC2 := d.Args[0].Int64(); isC2 && cv == tooBig && tooBig == 1009 {
 							sent = true
+							// the reason text: a constant of at most 123 bytes (a longer payload makes WriteControl refuse
+							// the frame, and then nothing is sent)
+							if len(d.Args) >= 2 {
+								if txt, isS := d.Args[1].StrVal(); !isS || len(txt) > 123 {
+									ok9, why9 = false, "the 1009 close frame carries a reason ("+d.Args[1].String()+") that is not a constant of at most 123 bytes: a long reason (e.g. one embedding a 19-digit length) exceeds the 125-byte control payload, WriteControl refuses it and no close frame is sent"
+								}
+							}
 							if !futureDeadline(ev.Args[3]) {
 								ok9, why9 = false, "the 1009 close frame is sent with a deadline that is not now + a positive constant (it may already have passed, and then nothing is sent)"
 							}
@@ -340,6 +347,8 @@ func c06(c *Ctx) {
 		r.Check("C06.limit-owner", shortFn(s.Parent()), "store-readLimit", s.Pos(), isParam && shortFn(s.Parent()) == "(*Conn).SetReadLimit", "Conn.readLimit may only be assigned from the parameter of SetReadLimit")
 	}
 	r.Floor("C06.limit-owner", 1)
+	// the running sum is touched only by the frame parser and by NextReader's per-message reset
+	rd.owners("C06.reset-per-message", rd.readLength, "(*Conn).advanceFrame", "(*Conn).NextReader")
 	r.Floor("C06.no-claimed-alloc", 8)
 }
 
